@@ -164,7 +164,7 @@ LEVEL_TEXT = ("Machine-checked proof (Coq) over a transition system of membershi
               "any node, in any order, for any N, B, P, rf): every reachable state's replica lists are a function of the live members it knows, so two managers with the same "
               "live-member map hold the same replica lists and the same (alive_since, ref) coordinator order (C14_order_independent); once all N configured nodes are live every "
               "partition has exactly min(rf,N) distinct replicas and a node is in the list iff calculate_assigned_partitions gives it the partition (C14_count, C14_window); no step "
-              "panics when min(rf,N)<=12 (C14_no_panic). History: u8 truncation (C14_u8_ok_below_256 / C14_u8_refuted_256), order dependence of the unrepaired response handler "
+              "panics when min(rf,N)<=12 (C14_no_panic); which members a manager knows is exactly what it heard — last event of a peer a connect or heartbeat — after every history of local membership events (C14_membership, C14_membership_init, C14_heard_again; the monitor applies the same rule to the real manager). History: u8 truncation (C14_u8_ok_below_256 / C14_u8_refuted_256), order dependence of the unrepaired response handler "
               "(C14_order_refuted_before_fix). Known finding: min(rf,N) > 12 overflows the 12-slot ArrayVec (C14_capacity_refuted). Tie to the code: differential run of real "
               "TopologyManager instances against the extracted model, exhaustive for N<=8, B<=16 and for short event sequences, boundary (N up to 300, B,P up to 65535) and random beyond, "
               "plus a direct monitor that compares every manager with a freshly connected one.")
